@@ -77,8 +77,8 @@ class C02(nestedcheck.NestedCheck):
         level='proof', design='DESIGN.md 4/C02 + design_notes/C02.md',
         technique='Lean 4 proof (executable model of the hierarchical engine, invariant + ghost bookkeeping) + '
                   'differential correspondence with the real classes + verified monitor on implementation traces',
-        text="Lean 4 proofs, for ALL state definitions / transition sets (global and local) / non-raising scripts / histories (direct and queued): the invariant (admissible configuration, single root, states entered-and-not-exited = active states and their ancestors) holds initially and is carried by every trigger call; no state is entered while active, exited while inactive, entered before its parent or exited before an active descendant; the entered part is closed under initial descent; resolve_order and _enter_nested terminate. 'Entered and afterwards exited within one event' is proved under the exclusion 'at most one transition executes per event' and refuted in general (decide witness, four open findings). Tie to the code: trace equality model = HierarchicalMachine, verified ghost monitor + Python oracle on all six hierarchical classes, small-scope enumeration.",
-        note="Model is hand-written (tied by correspondence); callbacks do not raise and, on unqueued machines, do not trigger events; queued re-entrant triggers are covered by correspondence + monitor, the theorems assume no re-entrant commands; no final states (C18); theorem 'entered-then-exited' is partial (open findings F-C02-ete-*).")
+        text="Lean 4 proofs on a model that follows the repaired nesting.py, for ALL state definitions / transition sets (global and local) / non-raising scripts / histories (direct, queued, queued with callbacks that trigger further events): the invariant (admissible configuration, single root, states entered-and-not-exited = active states and their ancestors) holds initially and is carried by every trigger call; no state is entered while active, exited while inactive, entered before its parent or exited before an active descendant; the entered part is closed under initial descent; resolve_order and _enter_nested terminate; the state value round-trips. 'Entered and afterwards exited within one event' is proved for machine-level declarations up to the one remaining open finding (C02_step_global: only a transition that targets another region of an active parallel state can cause it), for any declarations under 'every executing transition is local at its moment' (C02_step_regions), and refuted in general (decide witness c02Cross; three open findings with narrow signatures). Tie to the code: trace equality model = HierarchicalMachine, verified ghost monitor + Python oracle on all six hierarchical classes (string and Enum states), small-scope enumeration; the projection of the model's item log is proved equal to its ghost log.",
+        note="Model is hand-written (tied by correspondence); callbacks do not raise and, on unqueued machines, do not trigger events; no final states (C18); open findings: no conflict resolution between regions (cross-region@global/@local) and separate passes per scope for locally declared events (related-sources@local); the sub-classification of the monitor clause 'source-active' is done on the harness side.")
 
     def assumptions(self):
         return (
